@@ -45,6 +45,10 @@ def atoms(D, cf=None):
     A["Inverse(Tanh)"] = (lambda s: base.InverseTransform(nl.Tanh()), ("first", -1.0, 1.0), 0)
     A["Inverse(Sigmoid)"] = (lambda s: base.InverseTransform(nl.Sigmoid(temperature=1.5)), ("first", 0.0, 1.0), 0)
     A["CauchyCDFInverse"] = (lambda s: nl.CauchyCDFInverse(), ("first", 0.0, 1.0), 0)
+    # constructor arguments away from their defaults (the pinned code accepts and ignores location / scale)
+    A["CauchyCDFInverse(scale 0.5)"] = (lambda s: nl.CauchyCDFInverse(location=0.0, scale=0.5), ("first", 0.0, 1.0), 0)
+    A["CauchyCDF(scale 2);CauchyCDFInverse"] = (lambda s: base.CompositeTransform([nl.CauchyCDF(location=0.0, scale=2.0), nl.CauchyCDFInverse()]), "R", 0)
+    A["Sigmoid(T 2.5);Logit(T 0.4)"] = (lambda s: base.CompositeTransform([nl.Sigmoid(temperature=2.5), nl.Logit(temperature=0.4)]), "R", 0)
     A["ActNorm"] = (lambda s: norm.ActNorm(D), "R", 0)
     A["BatchNorm(eval)"] = (lambda s: norm.BatchNorm(D), "R", 0)
     A["LULinear"] = (lambda s: lu.LULinear(D, identity_init=False), "R", 0)
@@ -312,9 +316,11 @@ def search(ck, tier, seed):
                     ck.finding("flow:logit-clamp-truncates-support",
                                "Flow([Sigmoid, Logit, LeakyReLU(0.2)], StandardNormal) integrates to %.6f: Logit clamps to [eps, 1-eps], "
                                "so the transform reaches only [-2.76, 13.8] of the base's support" % val, dict(case, row=ri))
-                elif verdict == "bad" and val < 1 and clamp_explains(fl, ctx, D, box, tier):
+                elif verdict == "bad" and clamp_explains(fl, ctx, D, box, tier):
                     # the recorded defect at another call site: with the clamp of every Logit in the flow moved from 1e-6 to
-                    # 1e-15 the same flow integrates to one, so the missing mass is what Logit's clamp cuts off
+                    # 1e-15 the same flow integrates to one, so the missing mass is what Logit's clamp cuts off - or, when the
+                    # clamped stretch lies inside the region the base still weighs, the surplus is the density the log-abs-det formula
+                    # keeps reporting where the clamped map is flat
                     ck.finding("flow:logit-clamp-truncates-support",
                                "%s integrates to %.8f; with Logit's clamp at 1e-15 instead of 1e-6 it integrates to one" % (name, val), dict(case, row=ri))
                 elif verdict == "bad":
